@@ -292,6 +292,7 @@ def margin_rules(ctx, w, S, R):
     b = w.body(rf)
     T = w.terms(rf)
     found = False
+    candidates = []
     new_rows = ("load", ("arg3",))
     for blk in sorted(b.normal_blocks()):
         t = b.term(blk)
@@ -317,16 +318,20 @@ def margin_rules(ctx, w, S, R):
         if edges is None:
             continue
         found = True
+        pend = []
+
+        def chk(cond, *a, **k):
+            pend.append((cond, a, k))
         for name, tgt, changed in edges:
             for fld in (tm, bm):
                 wpts = {pt for pt, ps in E.stmt_writes[rf].items() if fld in ps}
                 arm_w = {pt for pt in wpts if b.edge_controls((blk, tgt), pt[0])}
                 if not changed:
-                    ctx.check(not arm_w, "V6", "resize:Equal:%s" % fld[1], "resize resets %s although the height did not change (a width-only change must keep the region)" % fld[1],
+                    chk(not arm_w, "V6", "resize:Equal:%s" % fld[1], "resize resets %s although the height did not change (a width-only change must keep the region)" % fld[1],
                               loc=w.fn_loc(rf), sample={"arm": name, "field": fld[1], "writes": 0})
                 else:
                     ok = bool(arm_w) and b.every_path_to_return_hits((tgt, 0), arm_w, include_start=True)
-                    ctx.check(ok, "V6", "resize:%s:%s" % (name, fld[1]),
+                    chk(ok, "V6", "resize:%s:%s" % (name, fld[1]),
                               "resize does not reset %s on every path when the height changes (%s arm): the old region survives a height change" % (fld[1], name),
                               loc=w.fn_loc(rf), sample={"arm": name, "field": fld[1], "writes": len(arm_w)})
                     for pt in arm_w:
@@ -335,14 +340,19 @@ def margin_rules(ctx, w, S, R):
                         want = ("const", 0) if fld == tm else ("binop", "Sub", new_rows, ("const", 1))
                         ok2 = val_t == want or (fld == bm and val_t == ("binop", "Sub", rows_t, ("const", 1)) and
                                                 any(b.path_exists(wp, pt) for wp, ps2 in E.stmt_writes[rf].items() if ("arg1", R["rows"]) in ps2))
-                        ctx.check(ok2, "V6", "resize:%s:%s:value" % (name, fld[1]), "resize sets %s to %s; a height change must reset the region to the full screen" % (fld[1], w.tstr(rf, val_t)),
+                        chk(ok2, "V6", "resize:%s:%s:value" % (name, fld[1]), "resize sets %s to %s; a height change must reset the region to the full screen" % (fld[1], w.tstr(rf, val_t)),
                                   loc=w.stmt_loc(rf, pt))
         # every margin write in resize sits on a height-changed edge of this decision
         for fld in (tm, bm):
             for pt in sorted({pt for pt, ps in E.stmt_writes[rf].items() if fld in ps}):
                 ok = any(changed and b.edge_controls((blk, tgt), pt[0]) for name, tgt, changed in edges)
-                ctx.check(ok, "V6", "resize:guarded:%s:%s" % (fld[1], shared.site_key(w, rf, pt)),
+                chk(ok, "V6", "resize:guarded:%s:%s" % (fld[1], shared.site_key(w, rf, pt)),
                           "resize writes %s outside the height-changed arms" % fld[1], loc=w.stmt_loc(rf, pt))
+        candidates.append(pend)
+    if candidates:
+        best = min(candidates, key=lambda pd: sum(1 for c_, a_, k_ in pd if not c_))
+        for c_, a_, k_ in best:
+            ctx.check(c_, *a_, **k_)
     if not found:
         ctx.missing_anchor("V6", "comparison of the new height with the current one in %s" % rf)
     ctx.floor("V6", 8, "margin writer obligations")
